@@ -21,11 +21,11 @@ KINDS = ['missing_required', 'duplicate_single', 'block_as_keyword', 'keyword_as
 def gen_texts(rng, tier):
     sp = docs.spec()
     texts = []
-    n = 60 if tier == 'quick' else 1500
+    n = 60 if tier == 'quick' else 8000
     for i in range(n):
         node, text, toks = docs.random_doc(rng, size=rng.choice(['tiny', 'small', 'small']), ifdata=rng.choice([None, None, 'unknown']))
         texts.append(('valid', text))
-    per_kind = 6 if tier == 'quick' else 120
+    per_kind = 6 if tier == 'quick' else 400
     for kind in KINDS:
         for j in range(per_kind):
             try:
@@ -35,7 +35,7 @@ def gen_texts(rng, tier):
             except Exception:
                 continue
     # token-level mutations of valid documents
-    m = 80 if tier == 'quick' else 3000
+    m = 80 if tier == 'quick' else 15000
     for i in range(m):
         node, text, toks = docs.random_doc(rng, size='tiny', ifdata=None)
         chunks = loadlib.lex_chunks(text)
